@@ -1,6 +1,7 @@
 """C02 - SD messages round-trip: every entry keeps exactly its own options."""
 from __future__ import annotations
 
+import ipaddress
 import random
 
 from pv import net, refwire, sdgen
@@ -25,7 +26,7 @@ RULE = (
 )
 ASSUMPTIONS = ["Subscribe/SubscribeAck entries use counter 0..15 and a 16-bit eventgroup id (the decoder rejects other reserved bits by design)",
                "configuration keys non-empty ASCII without '='"]
-FLOORS = {"quick": {"runs_reaching_beyond_option_256": 60, "messages": 12000, "roundtrips_compared": 9000, "independent_decodes": 9000, "must_fail_cases": 400,
+FLOORS = {"quick": {"receive_path": 500, "receive_path_with_leading_sd_endpoint_option": 500, "runs_reaching_beyond_option_256": 60, "messages": 12000, "roundtrips_compared": 9000, "independent_decodes": 9000, "must_fail_cases": 400,
                     "must_fail_raised": 400, "shared_runs_observed": 3000, "send_sd_path": 300, "runs_of_15": 50,
                     "arrays_over_200_options": 8,
                     "mesh_scenarios": 100, "mesh_wire_datagrams": 4800}}
@@ -299,10 +300,58 @@ def check_send_sd(H, msg, ctx, rng, replay):
                     ok = False
         if not ok:
             ctx.violation("send_sd-bytes-decode-differently", dict(summary=summary(msg)), replay)
+        else:
+            check_receive(H, h, tr.sent[0][2], entries, msg, ctx, rng, replay)
     except refwire.RefError as exc:
         ctx.violation("send_sd-bytes-not-wellformed", dict(exc=repr(exc)), replay)
     finally:
         h.close()
+
+
+def check_receive(H, h, datagram, entries, msg, ctx, rng, replay):
+    """decoding and option resolution as the receiving stack does them: the datagram send_sd produced - and the same entries in a
+    message whose option array starts with the sender's SD endpoint option, which no entry refers to - handed to a second
+    stack's datagram_received; what reaches sd_message_received carries the original entries with their original runs"""
+    leading = rng.random() < 0.5
+    if leading:
+        lead = (H.IPv4SDEndpointOption(address=ipaddress.IPv4Address("10.254.254.254"), l4proto=H.L4Protocols.UDP, port=30490)
+                if rng.random() < 0.5 else
+                H.IPv6SDEndpointOption(address=ipaddress.IPv6Address("fd00::fe:fe"), l4proto=H.L4Protocols.UDP, port=30490))
+        try:
+            hdr = H.SOMEIPSDHeader(entries=tuple(entries), options=(lead,), flag_reboot=True, flag_unicast=True)
+            payload = bytes(hdr.assign_option_indexes().build())
+            ref, _ = refwire.decode_sd(payload)
+            for e, (f, r1, r2) in zip(ref["entries"], msg["entries"]):
+                g1, g2 = refwire.entry_runs(ref, e)
+                if g1 != [sdgen.to_ref(o) for o in r1] or g2 != [sdgen.to_ref(o) for o in r2]:
+                    raise refwire.RefError("layout differs")
+        except Exception:  # noqa: B902  (not representable with one more option, or laid out differently: not this path's question)
+            ctx.count("receive_path_leading_option_not_representable")
+            return
+        datagram = bytes(H.SOMEIPHeader(service_id=H.SD_SERVICE, method_id=H.SD_METHOD, client_id=0, session_id=1,
+                                        interface_version=H.SD_INTERFACE_VERSION, message_type=H.SOMEIPMessageType.NOTIFICATION,
+                                        payload=payload).build())
+    prot2, _tr2 = net.make_sd(h.loop, addr=("10.0.0.2", 30490))
+    got = []
+    prot2.sd_message_received = lambda sdhdr, addr, multicast: got.append(sdhdr)
+    h.at(h.loop.time() + 0.125, prot2.datagram_received, bytes(datagram), ("10.0.0.1", 30490), False)
+    h.run(h.loop.time() + 0.5)
+    ctx.count("receive_path_with_leading_sd_endpoint_option" if leading else "receive_path")
+    if len(got) != 1:
+        ctx.violation("receive-path-did-not-deliver-one-sd-message", dict(n=len(got), leading=leading, summary=summary(msg),
+                                                                         problems=h.problems()), replay)
+        return
+    r = got[0]
+    for i, (a, b) in enumerate(zip(r.entries, entries)):
+        same = (a.sd_type, a.service_id, a.instance_id, a.major_version, a.ttl, a.minver_or_counter) == \
+               (b.sd_type, b.service_id, b.instance_id, b.major_version, b.ttl, b.minver_or_counter)
+        if not same or tuple(a.options_1) != tuple(b.options_1) or tuple(a.options_2) != tuple(b.options_2):
+            ctx.violation("receive-path-resolves-entries-differently", dict(
+                entry=i, leading=leading, got=(len(a.options_1), len(a.options_2)), want=(len(b.options_1), len(b.options_2)),
+                summary=summary(msg)), replay)
+            return
+    if len(r.entries) != len(entries):
+        ctx.violation("receive-path-resolves-entries-differently", dict(n=len(r.entries), want=len(entries), leading=leading), replay)
 
 
 def shards(tier, seed):
